@@ -181,6 +181,7 @@ fn main() {
         "c06" => c06_main(&args[2..]),
         "c05" => c05::main(&args[2..]),
         "c20" => c20::main(&args[2..]),
+        "c20cand" => c20::cand_main(&args[2..]),
         _ => std::process::exit(2),
     }
 }
